@@ -202,3 +202,7 @@ def check(prog, run):
     r = run.rule("S4", "middlewares are forced to [] for subscriptions (documented behaviour; recorded, not judged)", 1)
     kw = [k for n in own_nodes(sub.node) if isinstance(n, ast.Call) for k in n.keywords if k.arg == "middlewares"]
     r.instance("subscribe passes middlewares=%s" % (ast.unparse(kw[0].value) if kw else None))
+
+    # ---- S5 executor memo tables live across all events of one subscription (shared with C04.H2)
+    from . import c04
+    c04.check_memo_keys(prog, run, "S5")
